@@ -103,11 +103,30 @@ func (cp *CertificatePoliciesData) MarshalJSON() ([]byte, error) {
 			cpsJSON.CPSUri = append(cpsJSON.CPSUri, uri)
 		}
 
+		// ZCrypto - the parser appends to ExplicitTexts and to NoticeRefOrganization /
+		// NoticeRefNumbers independently (a user notice may carry either part), so the
+		// lists of one policy can differ in length and position. UserNotices keeps the
+		// parts of every notice together; use it when it is filled in.
+		if idx < len(cp.UserNotices) && len(cp.UserNotices[idx]) > 0 {
+			for _, un := range cp.UserNotices[idx] {
+				uNoticeData := UserNoticeData{}
+				if un.ExplicitText != nil {
+					uNoticeData.ExplicitText = *un.ExplicitText
+				}
+				if un.NoticeReference != nil {
+					uNoticeData.NoticeReference = append(uNoticeData.NoticeReference, *un.NoticeReference)
+				}
+				cpsJSON.UserNotice = append(cpsJSON.UserNotice, uNoticeData)
+			}
+			policies = append(policies, cpsJSON)
+			continue
+		}
+
 		for idx2, explicit_text := range cp.ExplicitTexts[idx] {
 			uNoticeData := UserNoticeData{}
 			uNoticeData.ExplicitText = explicit_text
 			noticeRef := NoticeReference{}
-			if len(cp.NoticeRefOrganization[idx]) > 0 {
+			if idx2 < len(cp.NoticeRefOrganization[idx]) && idx2 < len(cp.NoticeRefNumbers[idx]) {
 				organization := cp.NoticeRefOrganization[idx][idx2]
 				noticeRef.Organization = organization
 				noticeRef.NoticeNumbers = cp.NoticeRefNumbers[idx][idx2]
